@@ -46,6 +46,7 @@ class Ctx:
         self._distinct = set()
         self.notes = {}
         self.modules = []
+        self.search = None      # callable run when an obligation/correspondence broke and no witness exists yet
 
     # ------------------------------------------------------------ proof side
     def prove(self, prop_modules, sync_modules=(), thorough_checker=True):
@@ -141,6 +142,17 @@ class Ctx:
                 continue    # one VIOLATION line per distinct failure signature
             seen_sig.add(key)
             violations.append(("impl-witness", w))
+        if self.broken and not violations and self.search is not None and not getattr(self, "_searched", False):
+            # a proof obligation or the correspondence no longer checks: hunt for a
+            # concrete failing input on the implementation before concluding
+            self._searched = True
+            t = time.time()
+            try:
+                self.search()
+            except Exception as e:  # noqa
+                self.notes["search_error"] = repr(e)
+            self.notes["failing_input_search_s"] = round(time.time() - t, 1)
+            return self.finish()
         if self.broken and not violations:
             violations.append(("broken", self.broken))
         n = 0
